@@ -89,6 +89,28 @@ theorem segment_ids (i : Nat) (prev : Int) (hprev : prev = 3 * i * (i + 1)) :
   subst hprev
   constructor <;> ring
 
+/-- last id handed out after ring `i`, by the generated id arithmetic (`ids = arange(prev+1, prev+1+len)`, `prev = ids[-1]`),
+with `len = 6i` cells in ring `i` (`hex_ring_card`) -/
+def lastId : Nat → Int
+  | 0 => 0
+  | i + 1 => Generated.C18.idsHi (lastId i) (6 * ((i : Int) + 1)) - 1
+
+/-- THE DOCUMENTED NUMBER OF SEGMENTS, by induction over the rings: after `R` rings the last id is `3R(R+1)`, i.e. there are
+`1 + 3R(R+1)` segments before exclusion, and ring `i+1` starts at id `1 + 3i(i+1)` -/
+theorem segment_count (R : Nat) :
+    lastId R = 3 * (R : Int) * (R + 1) ∧ Generated.C18.idsLo (lastId R) (6 * ((R : Int) + 1)) = 1 + 3 * (R : Int) * (R + 1) := by
+  have h : ∀ n : Nat, lastId n = 3 * (n : Int) * (n + 1) := by
+    intro n
+    induction n with
+    | zero => simp [lastId]
+    | succ n ih =>
+      simp only [lastId, Generated.C18.idsHi, ih]
+      push_cast
+      ring
+  refine ⟨h R, ?_⟩
+  simp only [Generated.C18.idsLo, h R]
+  ring
+
 /-! ## windows -/
 
 /-- the generated clamp always yields `0 ≤ lo ≤ hi ≤ n` (a valid, possibly empty slice) with at most `2s` samples,
@@ -104,27 +126,32 @@ theorem window_in_bounds (c ic s n : Int) (hs : 0 ≤ s) (hn : 0 ≤ n) :
     windowLo, windowHi, clamp]
   refine ⟨?_, ?_, ?_, ?_, ?_, ?_, ?_, ?_⟩ <;> split_ifs <;> omega
 
-/-- `samples_per_seg = int(rseg/dx + 1)` is `⌊rseg/dx⌋ + 1` for a non-negative ratio -/
-theorem samples_per_seg (b : Rat) (hb : 0 ≤ b) : Generated.C18.samplesPerSeg b = ((⌊b⌋ + 1 : Int) : Rat) := by
-  unfold Generated.C18.samplesPerSeg pyTruncRat
-  have : ¬ (b + 1 < 0) := by linarith
-  rw [if_neg this, Rat.floor_eq_intFloor]
-  simp
+/-- `samples_per_seg = int(rseg/dx + 2)` is `⌊rseg/dx⌋ + 2` for a non-negative ratio (the offset the model and the driver use),
+and the centre index is `ceil(n/2)` -/
+theorem samples_per_seg (b : Rat) (hb : 0 ≤ b) (n : Int) :
+    Generated.C18.samplesPerSeg b = ((⌊b⌋ + spsOffset : Int) : Rat) ∧ Generated.C18.centreIndexX n = centreIndex n ∧
+    Generated.C18.centreIndexY n = centreIndex n := by
+  refine ⟨?_, rfl, rfl⟩
+  unfold Generated.C18.samplesPerSeg pyTruncRat spsOffset
+  have h2 : ¬ (b + 2 < 0) := by linarith
+  first
+    | (rw [if_neg h2, Rat.floor_eq_intFloor]; simp)
+    | (simp only [spsOffset]; push_cast; rw [if_neg h2, Rat.floor_eq_intFloor]; simp)
 
-/-- the (unclamped) window of a segment covers every sample whose coordinate lies within `± rseg` of the segment centre,
-EXCEPT possibly ONE line of samples: with `a = centre/dx`, `ia = int(a)`, `b = rseg/dx`, `s = ⌊b⌋ + 1`, origin sample
-`n // 2` and the code's centre index `c = ceil(n/2)`, every such sample `i` satisfies `lo − δ ≤ i < hi + 1 − δ`,
-`δ = c − n//2 ∈ {0, 1}`: for odd `n` the line just below the window, for even `n` the line just above it, may be cut off
-(the one-sample truncation of the design; it can only remove samples at the very tip/edge of the hexagon) -/
+/-- THE WINDOW CONTAINS THE WHOLE HEXAGON: with `a = centre/dx`, `ia = int(a)` (any integer within one sample of `a`),
+`b = rseg/dx`, `s = ⌊b⌋ + 2` (generated `samples_per_seg`), origin sample `n // 2` and the code's centre index `ceil(n/2)`,
+every sample `i` whose coordinate lies within `± rseg` of the segment centre satisfies `lo ≤ i < hi` for the unclamped window
+`[c + ia − s, c + ia + s)` — both parities of `n`, either sign of the centre.  (With the former `+ 1` one line of samples
+could be cut off: below the window for odd `n`, above it for even `n`.) -/
 theorem window_covers {K : Type} [Field K] [LinearOrder K] [IsStrictOrderedRing K]
     (n ia fb i : Int) (a b : K) (hia : |a - (ia : K)| < 1) (hfb : (fb : K) ≤ b ∧ b < (fb : K) + 1)
     (hin : a - b ≤ ((i - n / 2 : Int) : K) ∧ ((i - n / 2 : Int) : K) ≤ a + b) :
     let c := Generated.C18.centreIndexX n
-    let s := fb + 1
-    (c - n / 2 = 0 ∨ c - n / 2 = 1) ∧
-    (c + ia - s) - (c - n / 2) ≤ i ∧ i < (c + ia - s + 2 * s) + 1 - (c - n / 2) := by
+    let s := fb + spsOffset
+    c + ia - s ≤ i ∧ i < c + ia - s + 2 * s := by
   intro c s
   have hc : c = -((-n) / 2) := rfl
+  have hs : s = fb + 2 := rfl
   obtain ⟨h1, h2⟩ := abs_lt.mp hia
   obtain ⟨g1, g2⟩ := hin
   have lo : ((ia - fb - 2 : Int) : K) < ((i - n / 2 : Int) : K) := by
@@ -133,7 +160,7 @@ theorem window_covers {K : Type} [Field K] [LinearOrder K] [IsStrictOrderedRing 
     push_cast at g2 ⊢; linarith [hfb.2]
   have lo' := Int.cast_lt.mp lo
   have hi' := Int.cast_lt.mp hi
-  refine ⟨by omega, by omega, by omega⟩
+  refine ⟨by omega, by omega⟩
 
 /-! ## hexagons do not overlap -/
 
@@ -149,8 +176,14 @@ theorem gen_centres (w radius q r D gap : K) (hw : w ≠ 0) :
     Generated.C18.center90 w radius q r = center90 w radius q r ∧
     Generated.C18.center0 w radius q r = center0 w radius q r ∧
     Generated.C18.circumradius w D gap = circumradius w D ∧ Generated.C18.pitch w D gap = pitch w D gap := by
-  simp only [Generated.C18.center90, Generated.C18.center0, Generated.C18.circumradius, Generated.C18.pitch,
-    center90, center0, circumradius, pitch, and_self]
+  refine ⟨?_, ?_, ?_, ?_⟩ <;> first
+    | rfl
+    | (simp only [Generated.C18.center90, Generated.C18.center0, Generated.C18.circumradius, Generated.C18.pitch,
+        center90, center0, circumradius, pitch]; done)
+    | (simp only [Generated.C18.center90, Generated.C18.center0, center90, center0, Prod.mk.injEq]
+       constructor <;> first | trivial | rfl | (field_simp; done) | (field_simp; ring))
+    | (simp only [Generated.C18.circumradius, Generated.C18.pitch, circumradius, pitch]
+       first | (field_simp; done) | (field_simp; ring))
 
 /-- the hexagon's apothem is half the requested flat-to-flat diameter, and the clear distance between the facing
 edges of two neighbouring hexagons (`√3·pitch − 2·apothem`) is exactly the requested separation -/
@@ -270,6 +303,63 @@ theorem hex_vertices_in_slabs (w rho x0 y0 : K) (hw : w * w = 3) (hw0 : 0 < w) (
     rcases hv with rfl | rfl | rfl | rfl | rfl | rfl <;>
       simp only [inHex, inSlabs, slabs, Bool.false_eq_true, if_false, slabs0] <;>
       refine ⟨⟨?_, ?_⟩, ⟨?_, ?_⟩, ⟨?_, ?_⟩⟩ <;> nlinarith
+
+/-- a slab `−a ≤ · ≤ a` is convex -/
+theorem slab_convex (a u v t : K) (ht0 : 0 ≤ t) (ht1 : t ≤ 1) (hu : -a ≤ u ∧ u ≤ a) (hv : -a ≤ v ∧ v ≤ a) :
+    -a ≤ (1 - t) * u + t * v ∧ (1 - t) * u + t * v ≤ a := by
+  have h1t : 0 ≤ 1 - t := by linarith
+  constructor
+  · nlinarith [mul_le_mul_of_nonneg_left hu.1 h1t, mul_le_mul_of_nonneg_left hv.1 ht0]
+  · nlinarith [mul_le_mul_of_nonneg_left hu.2 h1t, mul_le_mul_of_nonneg_left hv.2 ht0]
+
+/-- the slab hexagon is convex -/
+theorem hex_convex (rot90 : Bool) (w a cx cy px py qx qy t : K) (ht0 : 0 ≤ t) (ht1 : t ≤ 1)
+    (hp : inHex rot90 w a cx cy px py) (hq : inHex rot90 w a cx cy qx qy) :
+    inHex rot90 w a cx cy ((1 - t) * px + t * qx) ((1 - t) * py + t * qy) := by
+  cases rot90
+  · simp only [inHex, inSlabs, slabs, Bool.false_eq_true, if_false, slabs0] at hp hq ⊢
+    obtain ⟨p1, p2, p3⟩ := hp
+    obtain ⟨q1, q2, q3⟩ := hq
+    have r1 := slab_convex a _ _ t ht0 ht1 p1 q1
+    have r2 := slab_convex a _ _ t ht0 ht1 p2 q2
+    have r3 := slab_convex a _ _ t ht0 ht1 p3 q3
+    refine ⟨?_, ?_, ?_⟩
+    · convert r1 using 2 <;> ring
+    · convert r2 using 2 <;> ring
+    · convert r3 using 2 <;> ring
+  · simp only [inHex, inSlabs, slabs, if_true, slabs90] at hp hq ⊢
+    obtain ⟨p1, p2, p3⟩ := hp
+    obtain ⟨q1, q2, q3⟩ := hq
+    have r1 := slab_convex a _ _ t ht0 ht1 p1 q1
+    have r2 := slab_convex a _ _ t ht0 ht1 p2 q2
+    have r3 := slab_convex a _ _ t ht0 ht1 p3 q3
+    refine ⟨?_, ?_, ?_⟩
+    · convert r1 using 2 <;> ring
+    · convert r2 using 2 <;> ring
+    · convert r3 using 2 <;> ring
+
+/-- convex hull of a finite set of points, generated by vertices and segment mixing -/
+inductive InHull (vs : List (K × K)) : K × K → Prop
+  | vertex (v : K × K) (h : v ∈ vs) : InHull vs v
+  | mix (p q : K × K) (t : K) (hp : InHull vs p) (hq : InHull vs q) (ht0 : 0 ≤ t) (ht1 : t ≤ 1) :
+      InHull vs ((1 - t) * p.1 + t * q.1, (1 - t) * p.2 + t * q.2)
+
+/-- THE MISSING CONVEXITY STEP: the convex hull of the six vertices `regular_polygon(6, ρ, …)` hands to qhull lies inside the
+closed slab hexagon of apothem `ρ√3/2` (both orientations).  With qhull's `find_simplex` = hull membership (trusted) every
+rasterised segment mask is a subset of its slab hexagon, so `hex_disjoint` applies to the masks. -/
+theorem hex_hull_in_slabs (w rho x0 y0 : K) (hw : w * w = 3) (hw0 : 0 < w) (hr : 0 ≤ rho) (p : K × K) :
+    (InHull (Generated.C18.hexVertices90 w rho x0 y0) p → inHex true w (rho * w / 2) x0 y0 p.1 p.2) ∧
+    (InHull (Generated.C18.hexVertices0 w rho x0 y0) p → inHex false w (rho * w / 2) x0 y0 p.1 p.2) := by
+  have hv := hex_vertices_in_slabs w rho x0 y0 hw hw0 hr
+  constructor
+  · intro h
+    induction h with
+    | vertex v hv' => exact hv.1 v hv'
+    | mix p q t _ _ ht0 ht1 ihp ihq => exact hex_convex true w _ x0 y0 p.1 p.2 q.1 q.2 t ht0 ht1 ihp ihq
+  · intro h
+    induction h with
+    | vertex v hv' => exact hv.2 v hv'
+    | mix p q t _ _ ht0 ht1 ihp ihq => exact hex_convex false w _ x0 y0 p.1 p.2 q.1 q.2 t ht0 ht1 ihp ihq
 
 /-- the slab hexagon has the symmetry of its shape: it is invariant under the point reflection through its centre
 and under the mirror in both coordinate axes through the centre (both orientations) -/
